@@ -38,7 +38,9 @@ class Spec(SeqSpec):
         self.max_variants = 10
 
     def roots(self):
-        return [('empty', {}, [])]
+        # second root: flat loose folder (loose_prefix_len=0) and sha1, with a shorter build phase
+        return [('empty', {}, []),
+                ('empty-flat-loose-sha1', {'loose_prefix_len': 0, 'hash_type': 'sha1'}, [], {'depth': self.build_depth + 1})]
 
     def core_ops(self, root_name):
         ops = [('add', 0), ('add', 1), ('add', 3), ('topack', (1, 2), False, False, True), ('topack', (3, 0), True, False, True),
